@@ -1,5 +1,5 @@
 SPECIFICATION Spec
-CONSTANTS L = 2  Variant = "arbitrary_ties"  NObj = 4  Family = "ties"
+CONSTANTS L = 2  IsoTest = "full"  Variant = "arbitrary_ties"  NObj = 4  Family = "tiesq"
 INVARIANT TypeOK
 INVARIANT PainterRule
 INVARIANT PrefixRule
